@@ -110,6 +110,18 @@ func Comparer(id string) comparer.Comparer {
 		return &cmpImpl{"verif.lenfirst", lenFirst, nilSep, nilSucc}
 	case "nilsep":
 		return &cmpImpl{"verif.nilsep", bytes.Compare, nilSep, nilSucc}
+	case "blankins":
+		// NOT injective: trailing blanks are ignored, and Separator returns the canonical (trimmed) spelling of
+		// `a`, which compares equal to `a` — allowed by "a <= x < b".  Used only by implementation-side law checks.
+		trim := func(x []byte) []byte { return bytes.TrimRight(x, " ") }
+		return &cmpImpl{"verif.blankins", func(a, b []byte) int { return bytes.Compare(trim(a), trim(b)) },
+			func(dst, a, b []byte) []byte {
+				ta := trim(a)
+				if len(ta) < len(a) && bytes.Compare(ta, trim(b)) < 0 {
+					return append(dst, ta...)
+				}
+				return nil
+			}, nilSucc}
 	case "unshort":
 		return &cmpImpl{"verif.unshort", bytes.Compare,
 			func(dst, a, b []byte) []byte { return append(dst, a...) },
